@@ -41,6 +41,7 @@ func init() {
 			c13DefaultsOnlyWhenUnset(r)
 			c13BackupOwnersPruned(r)
 			fragmentStatsTruthful(r)
+			configSanitizeFillsOnly(r, "sanitize-fills-only")
 		},
 	})
 }
